@@ -12,7 +12,8 @@ EXPLANATION = ("R14.1 every destructive file-system effect (remove_file, rename,
                "extension compared for equality with the requested suffix; the stem continues after the fixed part with the `_` separator; the "
                "non-empty text up to the first `.` is handed to the infix predicate; the infix predicates evaluated on sample infixes; R14.3 "
                "destructive effects are confined to the file-log-writer state modules (plus the two listed append/create_new exceptions). R14.2 also: writer/reader agreement on the suffix (F27), the timestamp predicate parses the WHOLE infix (no remainder), no dot-cut before the fixed part is stripped."
-               " R14.4 (shared with R06.4): the name-collision test examines exactly the own candidates (plain, .gz, family restart siblings), not a coarser listing a near miss can enter.")
+               " R14.4 (shared with R06.4): the name-collision test examines exactly the own candidates (plain, .gz, family restart siblings), not a coarser listing a near miss can enter."
+               " R14.5 (shared with R07.4/R07.5): every cleanup path - start-up, synchronous, background thread - filters with the naming state's own infix filter and direct flag, so no path takes files of another pattern for its own.")
 ASSUMPTIONS = ["Path::extension / file_stem / str::strip_prefix semantics (std)", "numbering/timestamp derivation from the filtered listing is C06's subject"]
 NOT_DECIDED = ["that foreign files change nothing about numbering and timestamps for every name set (value dependent)", "metadata preservation"]
 FLOORS = {'R14.1': 10, 'R14.2': 6, 'R14.3': 8}
@@ -39,6 +40,14 @@ def run(R, ctx):
     R.rule('R14.4', 'collision test examines exactly the own candidates: plain, .gz and family restart siblings (shared with R06.4)')
     import c06 as _c06
     _c06.collision_table(Relabel(R, {'R06.4': 'R14.4'}), ctx)
+    # every cleanup path (start-up, synchronous, background thread) must select its candidates with the naming state's OWN infix filter (for a custom
+    # timestamp format: that format) and the naming's own direct flag: a path that derives a coarser / different filter itself takes foreign files
+    # for its own and deletes or compresses them (shared with R07.4 / R07.5)
+    R.rule('R14.5', 'every cleanup path filters with the naming state\'s own infix filter and direct flag (shared with R07.4/R07.5)')
+    import c07 as _c07
+    RR = Relabel(R, {'R07.4': 'R14.5', 'R07.5': 'R14.5'})
+    _c07.cleanup_flag_provenance(RR, ctx)
+    _c07.cleanup_filter_provenance(RR, ctx)
 
 
 def origin(ctx, body, op, depth=0, seen=None):
